@@ -54,7 +54,7 @@ func (c06) New() interface{} { return &C06Script{} }
 func (c06) Info() core.Info {
 	return core.Info{
 		Runs: map[string]int{"quick": 600000, "thorough": 40000000},
-		Rule: "Each run builds one abstract PMT (0..40 streams, decodable and opaque descriptors, section_length <= 1021), serialises it with the reference serialiser, prefixes pointer_field 0..182 + filler and 0..2 complete foreign sections, appends 0xFF stuffing, cuts the payload into packets at scripted sizes with a scripted stuffing style per packet (AF stuffing of length 0 / >=1, AF with PCR or flags, trailing 0xFF), interleaves them by a scripted multiplexer with packets of other PIDs (null, PES, a different PMT on another PID) and reads the stream with ReadPMT over a SimReader with scripted Read outcomes and optional truncation; NewPMT on the concatenated payload, the completion predicate on EVERY prefix of the payload (crash points), ExtractCRC and the PSI header accessors are checked in the same run; in a third of the fault-free runs a PAT, another program's PMT and this PMT are read one after the other from ONE reader (both orders), each table present once; plus a complete sweep for 3 fixed PMTs of every first-packet size 1..184 x pointer_field 0..20 x 3 stuffing styles. Non-trivial = at least one reach probe fired.",
+		Rule: "Each run builds one abstract PMT (0..40 streams, decodable and opaque descriptors, section_length <= 1021), serialises it with the reference serialiser, prefixes pointer_field 0..182 + filler and 0..2 complete foreign sections, appends 0xFF stuffing, cuts the payload into packets at scripted sizes with a scripted stuffing style per packet (AF stuffing of length 0 / >=1, AF with PCR or flags, trailing 0xFF), interleaves them by a scripted multiplexer with packets of other PIDs (null, PES, a different PMT on another PID) and reads the stream with ReadPMT over a SimReader with scripted Read outcomes and optional truncation; NewPMT on the concatenated payload, the completion predicate on EVERY prefix of the payload (crash points), ExtractCRC and the PSI header accessors are checked in the same run; in a third of the fault-free runs a PAT, another program's PMT and this PMT are read one after the other from ONE reader (both orders), each table present once; plus a complete sweep for 3 fixed PMTs of every first-packet size 1..184 x pointer_field 0..20 x 3 stuffing styles. Non-trivial = at least one reach probe fired. Added in waves 21-22: after decoding, the caller appends to every descriptor list it was handed and the table is compared again; twenty further table headers are encoded while earlier encodings are held.",
 		Real: []string{"psi.ReadPMT", "psi.NewPMT", "psi.PmtAccumulatorDoneFunc", "packet.Accumulator", "psi.ExtractCRC", "psi.PointerField/TableID/SectionSyntaxIndicator/PrivateIndicator/SectionLength", "psi.TableHeaderFromBytes/TableHeader.Data", "psi.NewPointerField", "PmtElementaryStream/PmtDescriptor getters and decoders", "io.ReadFull (stdlib)"},
 		Stub: []string{"PMT source + reference serialiser/CRC", "packetiser", "multiplexer (scripted picks)", "SimReader"},
 		Assumptions: []string{
